@@ -133,7 +133,14 @@ def c07_1(ctx):
         raise AnalysisError("OP_IFDUP handler missing")
     e = effect_of(ctx.repo, m, fn)
     want = {(norm(("cmp", "!=", ("dec", ("slot", 1)), ("const", 0))), (("slot", 1),)), (norm(("cmp", "==", ("dec", ("slot", 1)), ("const", 0))), ())}
-    got = {(tuple(c)[0] if len(c) == 1 else tuple(c), tuple(p)) for c, n, p, ac, ap in e["success"] if n == 0}
+    def as_cond(v):
+        """a script number used as a truth value is the test `num != 0`"""
+        if isinstance(v, tuple) and v and v[0] == "dec":
+            return norm(("cmp", "!=", v, ("const", 0)))
+        if isinstance(v, tuple) and v and v[0] == "not" and isinstance(v[1], tuple) and v[1] and v[1][0] == "dec":
+            return norm(("cmp", "==", v[1], ("const", 0)))
+        return v
+    got = {(as_cond(tuple(c)[0]) if len(c) == 1 else tuple(as_cond(x) for x in c), tuple(p)) for c, n, p, ac, ap in e["success"] if n == 0}
     if got == want and _depth(e) == 1:
         out.append(ctx.ok("op:" + fn.name, "OP_IFDUP: duplicates the top exactly when num(x1) != 0", fn, m, key="fx:OP_IFDUP"))
     else:
